@@ -1908,10 +1908,19 @@ func (query *Query) exec() (result any, err error) {
 			{
 				copy := CopyQuery(query)
 				copy.from = current
+				pending := len(copy.postProcessors)
 				rs, err := copy.exec()
 				if err != nil {
 					return nil, err
 				}
+				// what the inner dimension left pending (async calls and their
+				// post-processors) is awaited and run by this query
+				query.postProcessors = append(query.postProcessors, copy.postProcessors[pending:]...)
+				query.wg.Add(1)
+				go func() {
+					copy.wg.Wait()
+					query.wg.Done()
+				}()
 				slice = append(slice, rs)
 			}
 		case Map:
@@ -2072,5 +2081,7 @@ func CopyQuery(query *Query) *Query {
 		orderByDefinition: query.orderByDefinition,
 		options:           query.options,
 		postProcessors:    query.postProcessors,
+		// ONCE / GLOBAL results are memoised per query, inner dimensions included
+		singletonExecutions: query.singletonExecutions,
 	}
 }
